@@ -1,7 +1,79 @@
 (* nvref_c11: line protocol
      enc <op-hex> <arg-hex>...      -> ok <bytes-hex> | err
      dec <bytes-hex>                -> ok <n> <op-hex> <arg-hex>... | err
-     wf  <op-hex> <arg-hex>...      -> 1 | 0 *)
+     wf  <op-hex> <arg-hex>...      -> 1 | 0
+   text form (same answers as probes/asm_probe.c, see there for <mod>):
+     dis <mod>        -> ok <text-hex>
+     asm <text-hex>   -> ok <mod> | err <code> <line>
+     rt  <mod>        -> ok <mod-as-built> <text-hex> A <mod'> | ok <mod-as-built> <text-hex> E <code> <line>
+     wfm <mod>        -> wf | notwf <conjunct>,...     the hypothesis of C11_asm_disasm_module, conjunct by conjunct
+     f64 <bits-hex>   -> ok <text-hex> <bits'-hex>|rej         the oracle: print, then re-read
+     dec10 <hex>      -> ok <text-hex>         print_dec
+     ll <text-hex>    -> ok <z-hex> <rest-hex> | err      strtoll(base 0) + errno test
+   The float oracle (Section variables print_f64 / parse_f64 of NV.Isa.Asm) is instantiated here with the host libc
+   through OCaml: Printf "%.17g" (C printf) and float_of_string (C strtod); ERANGE is reconstructed from the result. *)
+let bytes_of_ostring (s : ostring) : n list = List.init (String.length s) (fun i -> n_of_int (Char.code s.[i]))
+let ostring_of_bytes (l : n list) : ostring =
+  let b = Buffer.create 64 in List.iter (fun c -> Buffer.add_char b (Char.chr (int_of_n c land 255))) l; Buffer.contents b
+let pf (bits : n) : n list =
+  bytes_of_ostring (Printf.sprintf "%.17g" (Int64.float_of_bits (Int64.of_string ("0x" ^ hex_of_n bits))))
+let is_sp c = c = ' ' || (c >= '\t' && c <= '\r')
+let sf (l : n list) : (n * n list) option =
+  (* strtod skips isspace, then takes the longest prefix that is a number; the texts we are asked about end the number at a blank/end *)
+  let rec drop = function c :: r when is_sp (Char.chr (int_of_n c land 255)) -> drop r | l -> l in
+  let l = drop l in
+  let rec span acc = function
+    | c :: r when not (is_sp (Char.chr (int_of_n c land 255))) -> span (c :: acc) r
+    | r -> (List.rev acc, r) in
+  let (tok, rest0) = span [] l in
+  let full = ostring_of_bytes tok in
+  (* strtod takes the longest prefix that is a number: try the token, then ever shorter prefixes of it *)
+  let rec best k = if k = 0 then None else
+    let s = String.sub full 0 k in
+    if String.contains s '_' then best (k - 1) else
+    match float_of_string_opt s with Some v -> Some (s, v, k) | None -> best (k - 1) in
+  match best (String.length full) with
+  | None -> None
+  | Some (s, v, k) ->
+      let rest = (let rec dropn n l = if n = 0 then l else match l with [] -> [] | _ :: r -> dropn (n - 1) r in dropn k tok) @ rest0 in
+      let ls = String.lowercase_ascii s in
+      let has sub = let n = String.length sub in
+        let rec go i = i + n <= String.length ls && (String.sub ls i n = sub || go (i + 1)) in go 0 in
+      let nonzero_digit = let r = ref false in
+        (try String.iter (fun c -> if c = 'e' || c = 'p' then raise Exit; if c >= '1' && c <= '9' then r := true) ls with Exit -> ()); !r in
+      let cls = classify_float v in
+      let erange = (cls = FP_infinite && not (has "inf")) || (cls = FP_subnormal) || (cls = FP_zero && nonzero_digit) in
+      if erange then None
+      else Some (n_of_hex (Printf.sprintf "%Lx" (Int64.bits_of_float v)), rest)
+
+let split_on c s = String.split_on_char c s
+let dec_n (s : ostring) : n = n_of_hex (Printf.sprintf "%x" (int_of_string s))
+let dec_of_n (x : n) : ostring = string_of_int (int_of_n x)
+let mod_of_desc (d : ostring) : module0 =
+  match split_on ';' d with
+  | [hdr; strs; fns; code] ->
+      let (fl, en) = (match split_on '/' hdr with [a; b] -> (dec_n a, dec_n b) | _ -> failwith "hdr") in
+      let m = ref { empty_module with m_flags = fl; m_entry = en } in
+      if strs <> "-" then List.iter (fun t ->
+        let h = String.sub t 1 (String.length t - 1) in
+        m := fst (add_string !m (if h = "" then [] else bytes_of_hex h))) (split_on ',' strs);
+      let fs = if fns = "-" then [] else List.map (fun t ->
+        match List.map dec_n (split_on '/' t) with
+        | [a; b; c; d; e; f] -> { fn_name = a; fn_arity = b; fn_off = c; fn_len = d; fn_locals = e; fn_upv = f }
+        | _ -> failwith "fn") (split_on ',' fns) in
+      { !m with m_funcs = fs; m_code = bytes_of_hex code }
+  | _ -> failwith "mod"
+let desc_of_mod (m : module0) : ostring =
+  dec_of_n m.m_flags ^ "/" ^ dec_of_n m.m_entry ^ ";" ^
+  (if m.m_strings = [] then "-" else String.concat "," (List.map (fun s -> "s" ^ (if s = [] then "" else hex_of_bytes s)) m.m_strings)) ^ ";" ^
+  (if m.m_funcs = [] then "-" else String.concat "," (List.map (fun f ->
+     String.concat "/" (List.map dec_of_n [f.fn_name; f.fn_arity; f.fn_off; f.fn_len; f.fn_locals; f.fn_upv])) m.m_funcs)) ^ ";" ^
+  hex_of_bytes m.m_code
+let asm_answer (t : n list) : ostring =
+  match asm_assemble table_list sf t with
+  | AOk m -> "A " ^ desc_of_mod m
+  | AErr (c, l) -> "E " ^ dec_of_n c ^ " " ^ dec_of_n l
+
 let () = iter_lines (fun line ->
   match words line with
   | "enc" :: o :: a ->
@@ -12,6 +84,33 @@ let () = iter_lines (fun line ->
   | ["dec"; h] ->
       (match decode table (bytes_of_hex h) with
        | Some (i, n) -> print_string (String.concat " " ("ok" :: string_of_int (int_of_nat n) :: hex_of_n i.op :: List.map hex_of_n i.args) ^ "\n")
+       | None -> print_string "err\n")
+  | ["dis"; d] ->
+      print_string ("ok " ^ hex_of_bytes (disasm_module table_list pf (mod_of_desc d)) ^ "\n")
+  | ["rt"; d] ->
+      let m = mod_of_desc d in
+      let t = disasm_module table_list pf m in
+      print_string ("ok " ^ desc_of_mod m ^ " " ^ hex_of_bytes t ^ " " ^ asm_answer t ^ "\n")
+  | ["asm"; h] ->
+      (match asm_assemble table_list sf (bytes_of_hex h) with
+       | AOk m -> print_string ("ok " ^ desc_of_mod m ^ "\n")
+       | AErr (c, l) -> print_string ("err " ^ dec_of_n c ^ " " ^ dec_of_n l ^ "\n"))
+  | ["wfm"; d] ->
+      let m = mod_of_desc d in
+      let good v = (match sf (pf v) with Some (v', []) -> v' = v | _ -> false) in
+      let names = ["str_nul"; "str_nl"; "str_comment"; "str_len"; "str_bytes"; "distinct"; "fn_fields"; "fn_names"; "layout";
+                   "code_decodes"; "code_targets"; "code_boundaries"; "code_patches"; "code_f64"; "label_total"; "entry"] in
+      let cs = wf_conjuncts table_list good m in
+      let bad = List.filter_map (fun (nm, ok) -> if ok then None else Some nm) (List.combine names cs) in
+      if (bad = []) <> wf_moduleb table_list good m then print_string "inconsistent\n"
+      else print_string (if bad = [] then "wf\n" else "notwf " ^ String.concat "," bad ^ "\n")
+  | ["f64"; h] ->
+      let t = pf (n_of_hex h) in
+      print_string ("ok " ^ hex_of_bytes t ^ " " ^ (match sf t with Some (v, []) -> hex_of_n v | _ -> "rej") ^ "\n")
+  | ["dec10"; h] -> print_string ("ok " ^ hex_of_bytes (print_dec (n_of_hex h)) ^ "\n")
+  | ["ll"; h] ->
+      (match strtoll (bytes_of_hex h) with
+       | Some (z, r) -> print_string ("ok " ^ hex_of_z z ^ " " ^ hex_of_bytes r ^ "\n")
        | None -> print_string "err\n")
   | [] -> ()
   | _ -> print_string "bad\n")
